@@ -32,6 +32,17 @@ def run(ctx):
     )
     ctx.assumptions = ["pydantic, json, pickle and PyYAML are trusted carriers of the simple forms (validated here, not modelled)"]
     with core.Lock():
+        # T-tie: the string branch of Config._splitIntoKeys is translated from the working tree into Gen/ConfigPy.lean;
+        # C18.Translated.translated_split identifies it with the model's `split`, which the round-trip theorems are about
+        import sys as _sys
+
+        _sys.path.insert(0, os.path.join(core.VERIF, "translate"))
+        try:
+            import gen_config
+
+            gen_config.generate(core.GEN_DIR)
+        except Exception as e:
+            ctx.broken.append(f"translation: Config._splitIntoKeys: {type(e).__name__}: {e}")
         built = core.lean_build(ctx, LEAN_TARGETS)
         if built:
             core.lean_audit(ctx, ["ButlerModel.Props.C18"])
